@@ -4,7 +4,6 @@ import CbiVerif.Model.FCleanCells
 import CbiVerif.Model.FLoopCells
 import CbiVerif.Spec.FortranRef
 import CbiVerif.Spec.FortranNodes
-import CbiVerif.Spec.FortranHash
 import CbiVerif.Model.FCond
 import CbiVerif.PP.Analyse
 /-! driver ops for C17: `fortran` (line classification: model, spec, wf, k) and `fortran_cond`
@@ -35,11 +34,10 @@ def handleFortran (j : Json) : Json :=
     ("wf", Json.bool spec.isSome),
     ("spec", match spec with | none => Json.null | some r => natArr (countedLines r)),
     ("k", match spec with | none => Json.arr #[] | some r => natArr (kLines r)),
-    -- the groups of `Spec/FortranNodes.lean` and the lines of finding class F-C17-2 (`C17.nodes_eq_ref`)
+    -- the groups of `Spec/FortranNodes.lean` (`C17.nodes_eq_ref`)
     ("spec_nodes", match spec with
       | none => Json.null
       | some _ => Json.arr ((refNodes text).map fun (x : Bool × List Nat) => Json.arr #[Json.bool x.1, natArr x.2]).toArray),
-    ("hash", natArr (hashHeadLines text)),
     ("nphys", ((splitLines text).length : Nat))]
 
 
